@@ -274,6 +274,13 @@ func (fc *FuncCtx) evalBuiltin(st *State, name string, call *ast.CallExpr) Val {
 				// function leaves the modelled subset instead of being verified against a wrong model.
 				fc.fail(call.Pos(), "append to %s, a slice header copied in a loop from %s declared outside the loop: the appended data may alias across iterations (shared backing array; not expressible in the value-semantic slice model)", id.Name, src.Name())
 			}
+			// append(y, ...) inside a loop with y declared outside it, the result going anywhere but back into y: when y has
+			// spare capacity every iteration writes into y's backing array, so the results of different iterations alias.
+			if obj, isVar := fc.info.ObjectOf(id).(*types.Var); isVar && len(fc.loopDepthPos) > 0 && !(obj.Pkg() != nil && obj.Parent() == obj.Pkg().Scope()) {
+				if obj.Pos() < fc.loopDepthPos[len(fc.loopDepthPos)-1] && fc.appendTarget != types.Object(obj) {
+					fc.fail(call.Pos(), "append to %s (declared outside the loop) whose result is not assigned back to %s: the results of different iterations may share %s's backing array (not expressible in the value-semantic slice model)", id.Name, id.Name, id.Name)
+				}
+			}
 		}
 		s := fc.evalExpr(st, call.Args[0])
 		cur := s.T
